@@ -683,21 +683,41 @@ def ack_depends_on_buffer_only(ctx, prop):
 
 
 def ack_offset_constant(ctx, prop):
+    """the sink marks an ACK by adding an offset to the flow id, the sender recognises it by the same offset, the FIB
+    generator installs the reverse entries under it: one value in all three classes.  Looked for in every method of
+    the class (a literal may sit in an extracted helper) and through module-level constants."""
     rule = prop + '.W.ack_offset'
-    sites = [('TCPSink', 'put'), ('TCPPacketGenerator', 'put'), ('FatTree', 'generate_fib')]
+    classes = ['TCPSink', 'TCPPacketGenerator', 'FatTree']
+    per_class = {}
+    for cn in classes:
+        c = ctx.repo.find_class(cn)
+        found = {}
+        for m, f in c.methods.items():
+            ctx.touch(f)
+            for node in walk_local(f.node):
+                v = None
+                if isinstance(node, ast.Constant) and isinstance(node.value, int) and not isinstance(node.value, bool):
+                    v = node.value
+                elif isinstance(node, ast.Name) and isinstance(node.ctx, ast.Load):
+                    g = f.module.globals.get(node.id)
+                    if isinstance(g, ast.Constant) and isinstance(g.value, int) and not isinstance(g.value, bool):
+                        v = g.value
+                if v is not None and v >= 1000:
+                    found.setdefault(v, []).append('%s.%s' % (cn, m))
+        per_class[cn] = found
     vals = {}
-    for cn, m in sites:
-        f = ctx.repo.method(cn, m, own=True)
-        ctx.touch(f)
-        for node in walk_local(f.node):
-            if isinstance(node, ast.Constant) and isinstance(node.value, int) and not isinstance(node.value, bool) and node.value >= 1000:
-                vals.setdefault(node.value, []).append('%s.%s' % (cn, m))
-    ok = len(vals) == 1 and len(next(iter(vals.values()))) >= 4
-    ctx.ob(rule, ok)
+    for cn, found in per_class.items():
+        for v, where in found.items():
+            vals.setdefault(v, []).extend(where)
+    missing = [cn for cn in classes if not per_class[cn]]
+    if missing:
+        raise AnalysisError('%s: no ACK-class offset found in %s any more' % (rule, ', '.join(missing)))
+    ok = len(vals) == 1
+    ctx.ob(rule, ok, 3)
     if ok:
-        ctx.sample(rule, 'tcp_sink.py, tcp_generator.py, fattree.py', 'ACK class offset is the single literal %s at %s' % (list(vals)[0], list(vals.values())[0]))
+        ctx.sample(rule, 'tcp_sink.py, tcp_generator.py, fattree.py', 'ACK class offset is the single value %s at %s' % (list(vals)[0], list(vals.values())[0]))
     else:
-        ctx.violation(rule, 'onl/packet/tcp_sink.py::TCPSink.put', 'ACK class offsets %s' % sorted(vals),
+        ctx.violation(rule, 'onl/packet/tcp_sink.py::TCPSink', 'ACK class offsets %s' % sorted(vals),
                       'the ACK flow-class offset differs between the sink, the sender and the FIB generator: %s' % vals)
 
 
